@@ -87,6 +87,44 @@ def pattern_pool(i):
     p = PATTERNS[pick(i, len(PATTERNS))]
     return all(outcome(l, p)[0] != "other_exc" for l in PAT_LD.values())
 ''')
+    ml = Module("c04_literal").pre('''
+import enum
+from typing import Literal
+class E(enum.Enum):
+    A = "ea"
+    B = 2
+LITS = {"small_int": Literal[1, 2, 3], "big_int": Literal[1, 2, 3, 4, 5], "strs": Literal["a", "b"], "mixed_01": Literal[0, 1, "x"],
+        "big_bool": Literal[False, True, 2, 3, 4, 5], "bytes": Literal[b"ab", "x"], "enum": Literal[E.A, "x"], "enum_big": Literal[E.A, E.B, 1, 2, 3, 4],
+        "bytes_enum": Literal[b"ab", E.A, "x"]}
+LRS = six_retorts()
+LLD = {(n, k): r.get_loader(t) for n, t in LITS.items() for k, r in LRS.items()}
+def shape(kind, d):
+    if kind == 0: return d
+    if kind == 1: return [d]
+    if kind == 2: return {"a": d}
+    if kind == 3: return {1}
+    if kind == 4: return (d, [d])
+    if kind == 5: return bytearray(b"ab")
+    return (d,)
+def lit_c04(name, kind, d):
+    data = shape(kind, d)
+    for k in LRS:
+        o = outcome(LLD[(name, k)], data)
+        if o[0] == "other_exc": return False
+        if o[0] == "load_error" and not only_load_errors(o[2]): return False
+    return True
+''')
+    for ln in ["big_int", "big_bool", "bytes", "enum_big", "bytes_enum"]:
+        ml.ob(f"literal_{ln}", "kind: int, tag: int, n: int, c0: int, c1: int", f"return lit_c04({ln!r}, kind, sel_atom(tag, n, c0, c1, 0, 'abx12=YQe '))",
+              pre=["0 <= kind <= 6", "0 <= tag <= 5", "0 <= n <= 2", "0 <= c0 < 10", "0 <= c1 < 10"], timeout=120 if tier == "quick" else 300,
+              family="Literal loaders (set branch, bytes members: values are hashed / base64-decoded, selector-built data)",
+              bounds="selector atom (None|bool|small and huge ints|pooled floats|str over 'abx12=YQe ' len<=2|bytes) bare or in 6 container shapes; 6 modes")
+    for ln in ["small_int", "strs", "mixed_01", "enum"]:
+        ml.ob(f"literal_{ln}", "kind: int, d: Union[None, bool, int, float, str, bytes]", f"return lit_c04({ln!r}, kind, d)",
+              pre=["0 <= kind <= 6", "not isinstance(d, (str, bytes)) or len(d) <= 2"], timeout=60 if tier == "quick" else 300,
+              family="Literal loaders (tuple and set branch, enum and bytes members) on atoms and unhashable containers",
+              bounds="symbolic atom (str/bytes len<=2) bare or in 6 container shapes incl. unhashable ones; 6 modes")
+    mods.append(ml)
     mx.ob("set_any_unhashable", "k0: int, k1: int", "return set_any(k0, k1)", pre=["0 <= k0 < 6", "0 <= k1 < 6"], timeout=60,
           family="Set[Any] / FrozenSet[object] with hashable and unhashable elements", bounds="2 elements from (int, list, dict, tuple, None, str); 6 modes")
     mx.ob("pattern_pool", "i: int", "return pattern_pool(i)", pre=["0 <= i < 10"], timeout=60, family="re.Pattern loader on malformed / over-limit patterns",
